@@ -38,7 +38,7 @@ func Register(reg *kernel.Registry) {
 	reg.MinProbes["C08"] = []string{"recv.accepted", "recv.rejected"}
 	reg.Serves["C07"] = append(reg.Serves["C07"], "tm")
 	reg.Serves["C13"] = append(reg.Serves["C13"], "tm", "bsc", "eth")
-	reg.Serves["C19"] = append(reg.Serves["C19"], "tm")
+	reg.Serves["C19"] = append(reg.Serves["C19"], "tm", "bsc", "eth")
 	reg.Assumptions["C07"] = []string{
 		"the reference predicate counts a signature as valid only if it was produced by the validator's own key over the submitted header; hash collisions and signature forgery are out of scope",
 		"completeness (valid header accepted) is measured as a probe, not a verdict",
